@@ -21,7 +21,7 @@ def scenario(v, wd, name, kinds, thorough, out):
     def probe(k, phase, timeout=4.0, patient=True, dest=None):
         before = len(w.p1.trace()) if k == "quic" else 0
         o = w.probe(k, phase, timeout=timeout, dest=dest)
-        if o != "ok" and patient and phase in ("warm", "recovered", "recovered-2", "continued"):
+        if o != "ok" and patient and phase in ("warm", "recovered", "recovered-2", "recovered-3", "continued"):
             # where the model demands success a slow answer on a busy machine must not count as an outage:
             # the failed attempt is replaced by one patient attempt ("a small bounded number of attempts")
             with w.rlock:
@@ -100,7 +100,7 @@ def scenario(v, wd, name, kinds, thorough, out):
             else:
                 for t in ts:
                     tcheck(t, k, 3.0)
-                for _ in range(3):
+                for _ in range(8 if k == "lb" else 3):      # the balancer alternates: 8 requests = 4 on the member that is away
                     probe(k, "down", timeout=3.0)
                 w.back(k, "kill")
                 time.sleep(0.15)
@@ -138,12 +138,22 @@ def scenario(v, wd, name, kinds, thorough, out):
                     tcheck(t, k, 3.0)
                 for mode in ("close", "garbage", "hold"):
                     w.hijack(k, mode, probes=2, probe_fn=lambda kk, ph, timeout=2.0: probe(kk, ph, timeout=timeout))
-                    w.rec({"ev": "fault", "kind": k, "how": "kill"})       # the impostor leaves: nothing listens
+                    w.rec({"ev": "fault", "kind": k, "how": "kill", "up": "lb1" if k == "lb" else k})       # the impostor leaves: nothing listens
                 w.back(k, "kill")
                 time.sleep(0.15)
                 for _ in range(3):
                     probe(k, "recovered-2")
-            elif quic and thorough:
+            if k == "lb":
+                # the OTHER member has its outage later, long enough for a balancer that keeps score to notice; when both
+                # members are back every request must be served again (nothing remembered from past failures)
+                w.down(k, "kill", member="lb2")
+                for _ in range(8):
+                    probe(k, "down-2", timeout=3.0)
+                w.back(k, "kill", member="lb2")
+                time.sleep(0.15)
+                for _ in range(6):
+                    probe(k, "recovered-3")
+            if quic and thorough:
                 # repeated outage of the QUIC upstream: kill while idle, restart, wait the grace period, must serve
                 w.down(k, "kill")
                 w.back(k, "kill")
